@@ -8,13 +8,14 @@ Trace == ndJsonDeserialize("trace.ndjson")
 T == Trace[l]
 TInit == l = 1 /\ Init
 Okd(b) == IF b # <<>> /\ b[1].op = "start" THEN b[1].ok ELSE TRUE
+Sokd(b) == \A i \in DOMAIN b : b[i].op = "stop" => b[i].ok
 TNew  == /\ l <= Len(Trace) /\ T.ev = "new" /\ l' = l + 1
          /\ Cap' = T.Cap /\ MinLen' = T.MinLen /\ K' = T.K /\ quirk' \in {TRUE, FALSE}
          /\ phase' = 0 /\ behind' = 0 /\ avail' = T.Cap /\ recording' = FALSE /\ upOpen' = FALSE /\ ev' = NoEv
 TCall == /\ l <= Len(Trace) /\ T.ev = "call" /\ l' = l + 1
          /\ CASE T.op = "start" -> UpStart(T.dt, Okd(T.base))
-              [] T.op = "w"     -> UpWrite(T.dt, Okd(T.base))
-              [] T.op = "stop"  -> UpStop(T.dt)
+              [] T.op = "w"     -> UpWrite(T.dt, Okd(T.base), Sokd(T.base))
+              [] T.op = "stop"  -> UpStop(T.dt, Sokd(T.base))
               [] OTHER -> FALSE
          /\ ev'.base = T.base /\ ev'.nev = T.nev /\ ev'.err = T.err
 TNext == TNew \/ TCall
